@@ -335,6 +335,16 @@ def run(ck: Check) -> int:
             return None
         report(ck, eng, [('', 'props.C10:replay', nat, search)])
         functions_interpreted(ck, eng)
+    from vlib.pyvc.crosscheck import crosscheck
+    addrs = [_mk(k, bytes([i] * 20)) for i, k in enumerate(ADDR)] + ['tz1Ke2h7sDdakHJQh8WX4Z372du1KChsksyU']
+    crosscheck(ck, F.forge_address, [(a,) for a in addrs] + [(addrs[0], True), ('xx1invalid',)])
+    crosscheck(ck, F.unforge_address, [(F.forge_address(a),) for a in addrs] + [(F.forge_address(addrs[0], True),), (b'\x09' * 22,)])
+    crosscheck(ck, F.forge_contract, [(addrs[4] + '%transfer',), (addrs[0],), (addrs[4] + '%default',)])
+    crosscheck(ck, F.unforge_contract, [(F.forge_contract(addrs[4] + '%transfer'),), (F.forge_contract(addrs[1]),)])
+    keys = [_mk(k, bytes(range(n))) for k, (t, n) in KEYS.items()]
+    crosscheck(ck, F.forge_public_key, [(k,) for k in keys])
+    crosscheck(ck, F.unforge_public_key, [(F.forge_public_key(k),) for k in keys] + [(b'\x07' + bytes(32),)])
+    crosscheck(ck, F.unforge_signature, [(bytes(64),), (bytes(96),), (bytes(63),)])
     run_R(ck)
     return ck.finish('other',
                      'P: forge/unforge of addresses (22-byte and 21-byte key-hash forms), contracts with every entrypoint name, '
